@@ -526,6 +526,26 @@ def _generate(ctx):
         yield ("corr", "schnorr_parse", [sig])
         ctx.label("verify/random")
 
+    # ---- keys that are no curve point, with signatures CRAFTED to pass if the key were taken for the neutral
+    # element (R = s*G with even y, so s*G - e*P = R whatever the message): must be rejected for every message
+    crafted = []
+    sv = 1
+    while len(crafted) < ctx.n(4, 30):
+        R = ecref.mul(sv, ecref.G)
+        if R[1] % 2 == 0:
+            crafted.append(b32(R[0]) + b32(sv))
+        sv = sv + 1 if len(crafted) < 3 else r.randrange(1, N)
+    off = 5
+    while ecref.lift_x(off) is not None:
+        off += 1
+    for pk in (bytes(32), b32(off), b32(P), b32(P + 1), b"\xff" * 32):
+        for sg in crafted:
+            for m in (bytes(32), ctx.rbytes(32)):
+                ctx.label("verify/invalid-key-crafted-signature")
+                yield ("corr", "verify_schnorr", [pk, m, sg])
+                yield ("corr", "bip340_verify", [pk, m, sg])
+                yield ("prop", "verify_ref", [pk, m, sg])
+
     # ---- state kept across calls: tag cache under look-alike tags, wrappers, no clearing between histories
     near = [b"BIP0340/aux", b"BIP0340/auy", b"BIP0340/nonce", b"BIP0340/nonc", b"TapLeaf", b"TapLeag", b"TapTweak",
             b"TapBranc", b"TapBranch", b"tapleaf", b"TapLeaf\x00", b"", b"\x00"]
